@@ -18,6 +18,7 @@ import (
 	"github.com/nspcc-dev/neo-go/pkg/config/limits"
 	"github.com/nspcc-dev/neo-go/pkg/core/block"
 	"github.com/nspcc-dev/neo-go/pkg/core/dao"
+	"github.com/nspcc-dev/neo-go/pkg/core/fee"
 	"github.com/nspcc-dev/neo-go/pkg/core/interop"
 	"github.com/nspcc-dev/neo-go/pkg/core/interop/contract"
 	"github.com/nspcc-dev/neo-go/pkg/core/mempool"
@@ -3187,6 +3188,15 @@ func (bc *Blockchain) IsTxStillRelevant(t *transaction.Transaction, txpool *memp
 	if bc.policy.CheckPolicy(bc.dao, t) != nil {
 		return false
 	}
+	// The same block can change any other Policy value the transaction
+	// depends on: the ValidUntilBlock window and the fees.
+	if !isPartialTx && t.ValidUntilBlock > curheight+bc.GetMaxValidUntilBlockIncrement() {
+		return false
+	}
+	netFee := t.NetworkFee - int64(t.Size())*bc.FeePerByte() - bc.CalculateAttributesFee(t)
+	if netFee < 0 {
+		return false
+	}
 	if txpool == nil {
 		if bc.dao.HasTransaction(t.Hash(), t.Signers, curheight, bc.GetMaxTraceableBlocks()) != nil {
 			return false
@@ -3197,16 +3207,20 @@ func (bc *Blockchain) IsTxStillRelevant(t *transaction.Transaction, txpool *memp
 	if err := bc.verifyTxAttributes(bc.dao, t, isPartialTx); err != nil {
 		return false
 	}
+	baseExecFee := bc.GetBaseExecFee()
 	for i := range t.Scripts {
 		if !scparser.IsStandardContract(t.Scripts[i].VerificationScript) {
 			recheckWitness = true
 			break
 		}
+		// The price of a standard witness is known without running it.
+		cost, _ := fee.Calculate(baseExecFee, t.Scripts[i].VerificationScript)
+		netFee -= cost
 	}
 	if recheckWitness {
 		return bc.verifyTxWitnesses(t, nil, isPartialTx) == nil
 	}
-	return true
+	return isPartialTx || netFee >= 0
 }
 
 // VerifyTx verifies whether transaction is bonafide or not relative to the
